@@ -1,25 +1,41 @@
 """build stages shared by all properties: facts extraction, Lean build + audit, Go harness build"""
-import os, re
+import json, os, re
 from common import *
 
 
 def lean_stage(ctx):
     def run():
         res = {"ok": True, "errors": [], "failed_modules": [], "axioms": {}, "forbidden": []}
-        # 1. regenerate the extracted facts from /repo (deleted first)
+        # 1. regenerate the extracted facts from /repo (deleted first) and re-prove the fact modules
         ext = os.path.join(LEAN, "GoCo", "Facts", "Extracted.lean")
-        if os.path.isdir(os.path.dirname(ext)):
-            try:
-                os.remove(ext)
-            except OSError:
-                pass
-            rc, out = sh(["go", "run", "-tags", "verif", "./cmd/extract", "-repo", REPO, "-out", ext],
-                         cwd=HARNESS, env=GOENV, timeout=600)
-            if rc != 0:
-                res["errors"].append("fact extraction failed: " + out[-2000:])
-                # leave a file that makes every facts theorem fail rather than none at all
-                with open(ext, "w") as f:
-                    f.write("-- extraction failed\n")
+        fjson = os.path.join(ctx.bdir, "facts.json")
+        try:
+            os.remove(ext)
+        except OSError:
+            pass
+        rc, out = sh(["go", "run", "./cmd/extract", "-repo", REPO, "-out", ext, "-json", fjson],
+                     cwd=HARNESS, env=GOENV, timeout=600)
+        if rc != 0 or not os.path.exists(ext):
+            res["errors"].append("fact extraction failed: " + out[-2000:])
+            with open(ext, "w") as f:
+                f.write("-- extraction failed\nnamespace GoCo.Facts.Extracted\nend GoCo.Facts.Extracted\n")
+        fact_mods = sorted(f[:-5] for f in os.listdir(os.path.join(LEAN, "GoCo", "Facts"))
+                           if f.startswith("G_") and f.endswith(".lean")) + ["Assumptions"]
+        rcf, outf = sh(["lake", "build"] + ["GoCo.Facts." + m for m in fact_mods], cwd=LEAN, timeout=1800)
+        failed = set(re.findall(r"^- GoCo\.Facts\.(\w+)", outf, flags=re.M)) if rcf != 0 else set()
+        res["facts"] = {m: (m not in failed) for m in fact_mods}
+        # which declarations changed (for the replay text)
+        res["facts_changed"] = []
+        try:
+            cur = json.load(open(fjson))
+            exp = json.load(open(os.path.join(LEAN, "GoCo", "Facts", "expect.json")))
+            for k in sorted(set(cur) | set(exp)):
+                a, b = cur.get(k), exp.get(k)
+                if a is None or b is None or a["value"] != b["value"]:
+                    info = a or b
+                    res["facts_changed"].append(f"{info['file']}: {info['decl']}")
+        except Exception as e:
+            res["facts_changed"].append("could not compare facts: %s" % e)
         # 2. build everything; collect failing modules
         if ctx.tier == "thorough" and os.environ.get("VERIF_NO_CLEAN") != "1":
             sh(["rm", "-rf", os.path.join(LEAN, ".lake", "build")])
